@@ -93,6 +93,10 @@ pub enum Cmd {
         commands: bool,
     },
     Panics,
+    /// persistent schedule rules: (sync-point label, delay in us) for every occurrence
+    SetDelays {
+        delays: Vec<(String, u64)>,
+    },
     Scenario {
         spec: crate::director::ScenarioSpec,
     },
@@ -442,6 +446,10 @@ impl Executor {
                 ok(json!(null))
             }
             Cmd::Panics => ok(json!(PANICS.lock().unwrap().clone())),
+            Cmd::SetDelays { delays } => {
+                crate::director::set_delays(delays);
+                ok(json!(null))
+            }
             Cmd::Scenario { spec } => crate::director::run_scenario(self, spec),
         }
     }
